@@ -334,8 +334,9 @@ def r4(ctx):
             if not cfg.dominates(ml.header, at):
                 continue
             defs = rd.origins(at, n.id)
-            pre = {d.id for d in rd.origins(init, n.id)}
             ids = {d.id for d in defs}
+            # definitions made before the loop (of this name, or of the name it is a plain copy of)
+            pre = {d.id for d in rd.origins(init, n.id)} | {d.id for d in defs if not ml.in_loop(d) and cfg.dominates(d, ml.header)}
             stale = ids - {rel.id} - pre
             zero_trip_only = ids - {rel.id}
             ok = rel.id in ids and not stale
